@@ -34,6 +34,9 @@ static int g_vo_cmd; static unsigned int g_vo_sig;
 #define VO_FILL() do { struct VO_STRUCT nondet_vo_obj(void); g_vo_obj = nondet_vo_obj(); } while (0)
 #define VO_LOAD(FIELD) do { } while (0)
 #endif
+#ifndef VO_HAS_SIG
+#define VO_HAS_SIG 1      /* local commands carry the pipe signature as first argument; standard ones do not */
+#endif
 #ifndef VO_EXTRA_BUILD
 #define VO_EXTRA_BUILD() do { } while (0)
 #endif
@@ -44,22 +47,24 @@ static int g_vo_cmd; static unsigned int g_vo_sig;
     VO_EXTRA_BUILD()
 
 #ifndef VNATIVE
-#define VOPT_CONTRACTS(opt, FT, AT, FIELD, SETFN, GETFN, SETCMD, GETCMD, NULLOK, ACCEPT) \
+#define VOPT_CONTRACTS(opt, FT, AT, PT, FIELD, SETFN, GETFN, SETCMD, GETCMD, NULLOK, ACCEPT) \
 static int SETFN(struct upipe *upipe, AT v) \
 __CPROVER_requires(upipe == &g_vo_obj.upipe && g_vo_obj.FIELD == g_vo_old.FIELD) \
 __CPROVER_assigns(g_vo_obj.FIELD) \
 __CPROVER_ensures(post_##opt##_set(upipe, v, __CPROVER_return_value)); \
-static int GETFN(struct upipe *upipe, FT *p) \
+static int GETFN(struct upipe *upipe, PT *p) \
 __CPROVER_requires(upipe == &g_vo_obj.upipe && g_vo_obj.FIELD == g_vo_old.FIELD && (NULLOK || p != NULL) && \
                    (p == NULL || *p == g_##opt##_out_old)) \
 __CPROVER_assigns(p != NULL: *p) \
 __CPROVER_ensures(post_##opt##_get(upipe, p, __CPROVER_return_value));
 #else
-#define VOPT_CONTRACTS(opt, FT, AT, FIELD, SETFN, GETFN, SETCMD, GETCMD, NULLOK, ACCEPT)
+#define VOPT_CONTRACTS(opt, FT, AT, PT, FIELD, SETFN, GETFN, SETCMD, GETCMD, NULLOK, ACCEPT)
 #endif
 
 #define VOPT(opt, FT, AT, FIELD, SETFN, GETFN, SETCMD, GETCMD, NULLOK, ACCEPT) \
-static FT g_##opt##_out_old, *g_##opt##_p; static AT g_##opt##_val; \
+    VOPTX(opt, FT, AT, FT, FIELD, SETFN, GETFN, SETCMD, GETCMD, NULLOK, ACCEPT)
+#define VOPTX(opt, FT, AT, PT, FIELD, SETFN, GETFN, SETCMD, GETCMD, NULLOK, ACCEPT) \
+static PT g_##opt##_out_old, *g_##opt##_p; static AT g_##opt##_val; \
 /* accepted setter: the value is stored; rejected setter: the previous value stays in force */ \
 static inline bool post_##opt##_set(struct upipe *upipe, AT v, int ret) \
 { \
@@ -67,22 +72,22 @@ static inline bool post_##opt##_set(struct upipe *upipe, AT v, int ret) \
     return VO_S(upipe)->FIELD == g_vo_old.FIELD && !(ACCEPT(v)); \
 } \
 /* getter: reports the stored value, alters nothing */ \
-static inline bool post_##opt##_get(struct upipe *upipe, FT *p, int ret) \
+static inline bool post_##opt##_get(struct upipe *upipe, PT *p, int ret) \
 { \
     if (VO_S(upipe)->FIELD != g_vo_old.FIELD) return false; \
     if (p == NULL) return true; \
-    return ret == UBASE_ERR_NONE && *p == g_vo_old.FIELD; \
+    return ret == UBASE_ERR_NONE && *p == (PT)g_vo_old.FIELD; \
 } \
 /* dispatch level: the control function routes the command to the option, checks the signature */ \
 static inline bool post_##opt##_ctl(struct upipe *upipe, int command, int ret) \
 { \
-    if (g_vo_sig != VO_SIG) \
+    if (VO_HAS_SIG && g_vo_sig != VO_SIG) \
         return ret == UBASE_ERR_UNHANDLED && VO_S(upipe)->FIELD == g_vo_old.FIELD && \
                (g_##opt##_p == NULL || *g_##opt##_p == g_##opt##_out_old); \
     if (command == (SETCMD)) return post_##opt##_set(upipe, g_##opt##_val, ret); \
     return post_##opt##_get(upipe, g_##opt##_p, ret) && (g_##opt##_p == NULL || ret == UBASE_ERR_NONE); \
 } \
-VOPT_CONTRACTS(opt, FT, AT, FIELD, SETFN, GETFN, SETCMD, GETCMD, NULLOK, ACCEPT) \
+VOPT_CONTRACTS(opt, FT, AT, PT, FIELD, SETFN, GETFN, SETCMD, GETCMD, NULLOK, ACCEPT) \
 void h_##opt##_set(void) \
 { \
     VO_BUILD(); VO_LOAD(FIELD); VIN(AT, v); g_vo_old = g_vo_obj; \
@@ -91,7 +96,7 @@ void h_##opt##_set(void) \
 } \
 void h_##opt##_get(void) \
 { \
-    VO_BUILD(); VO_LOAD(FIELD); VIN(bool, nullp); VIN(FT, out); FT *p = (NULLOK && nullp) ? NULL : &out; \
+    VO_BUILD(); VO_LOAD(FIELD); VIN(bool, nullp); VIN(PT, out); PT *p = (NULLOK && nullp) ? NULL : &out; \
     g_vo_old = g_vo_obj; g_##opt##_out_old = out; \
     int ret = GETFN(upipe, p); \
     VPOST(post_##opt##_get(upipe, p, ret)); VO_NATIVE_FRAME(FIELD); VCANARY(); \
@@ -100,11 +105,12 @@ static int call_##opt##_ctl(struct upipe *upipe, int command, ...) \
 { va_list args; va_start(args, command); int ret = VO_CONTROL(upipe, command, args); va_end(args); return ret; } \
 void h_##opt##_ctl(void) \
 { \
-    VO_BUILD(); VO_LOAD(FIELD); VIN(unsigned int, sig); VIN(AT, v); VIN(bool, nullp); VIN(FT, out); \
-    FT *p = (NULLOK && nullp) ? NULL : &out; int command = VCMD; \
+    VO_BUILD(); VO_LOAD(FIELD); VIN(unsigned int, sig); VIN(AT, v); VIN(bool, nullp); VIN(PT, out); \
+    PT *p = (NULLOK && nullp) ? NULL : &out; int command = VCMD; \
     g_vo_old = g_vo_obj; g_vo_cmd = command; g_vo_sig = sig; g_##opt##_val = v; g_##opt##_out_old = out; \
     g_##opt##_p = command == (GETCMD) ? p : NULL; \
-    int ret = command == (GETCMD) ? call_##opt##_ctl(upipe, command, sig, p) : call_##opt##_ctl(upipe, command, sig, v); \
+    int ret = VO_HAS_SIG ? (command == (GETCMD) ? call_##opt##_ctl(upipe, command, sig, p) : call_##opt##_ctl(upipe, command, sig, v)) \
+                         : (command == (GETCMD) ? call_##opt##_ctl(upipe, command, p) : call_##opt##_ctl(upipe, command, v)); \
     VPOST(post_##opt##_ctl(upipe, command, ret)); VO_NATIVE_FRAME(FIELD); VCANARY(); \
 }
 
